@@ -398,6 +398,22 @@ def import_cases() -> list:
     case("three-deep", {MAIN: _main(("./a/l1.exps",), ("m1", "m2", "m3")), "src/a/l1.exps": _lib("l1", ("m1",), ("./b/l2.exps",)),
                         "src/a/b/l2.exps": _lib("l2", ("m2",), ("../../c/l3.exps",)), "src/c/l3.exps": _lib("real", ("m3",)),
                         "c/l3.exps": _lib("decoy", ("m3",))})  # fmt: skip
+    # a file that is reached on two routes and has an import of its own, the indirect route first (the import chain of one route
+    # must not be remembered as a cycle on the other)
+    case("diamond-with-depth", {MAIN: _main(("./lib/actors.exps", "./lib/talk.exps"), ("m1", "m2", "m3")),
+                                "src/lib/actors.exps": _lib("actors", ("m1",), ("./talk.exps",)),
+                                "src/lib/talk.exps": _lib("talk", ("m2",), ("./base/wait.exps",)),
+                                "src/lib/base/wait.exps": _lib("wait", ("m3",))})  # fmt: skip
+    case("diamond-with-depth-direct-first", {MAIN: _main(("./lib/talk.exps", "./lib/actors.exps"), ("m1", "m2", "m3")),
+                                             "src/lib/actors.exps": _lib("actors", ("m1",), ("./talk.exps",)),
+                                             "src/lib/talk.exps": _lib("talk", ("m2",), ("./base/wait.exps",)),
+                                             "src/lib/base/wait.exps": _lib("wait", ("m3",))})  # fmt: skip
+    # labels are private to a macro: two macros of one file use the same label name, each next to blocks that get labels of their own
+    same_label = ("macro wait_for_flag() {\n    §again;\n    tick();\n    if ($F == 1) {\n        jump @again;\n    }\n    done_w();\n}\n"
+                  "macro retry($n) {\n    if ($n == 1) {\n        first($n);\n    }\n    §again;\n    try($n);\n    if ($n == 2) {\n        jump @again;\n    }\n"
+                  "    while ($n < 3) {\n        spin();\n    }\n    done_r();\n}\n")
+    case("same-label-name-in-two-macros", {MAIN: same_label + "def 0 {\n    ~wait_for_flag();\n    mid();\n    ~retry($G);\n    ~wait_for_flag();\n    ~retry(2);\n    hold;\n}\n"})
+    case("same-label-name-in-two-macros-other-order", {MAIN: same_label + "def 0 {\n    ~retry(1);\n    ~wait_for_flag();\n    end;\n}\ndef 1 {\n    ~wait_for_flag();\n    ~retry($H);\n}\n"})
     # clause (d): documented rejections
     case("missing-relative", {MAIN: _main(("./nope.exps",))}, expect="reject", family="reject")
     case("missing-lookup", {MAIN: _main(("nope.exps",)), "inc1/other.exps": _lib("x")}, ("inc1",), expect="reject", family="reject")
